@@ -241,6 +241,6 @@ Proof.
   - rewrite reader_unshuffle_eq; auto.
 Qed.
 
-(* element size 0: the writer divides by zero (reported; no public option reaches it) *)
-Lemma shuffle_esz0_panics x : x <> [] -> shuffle_apply 0 x = Panic.
-Proof. destruct x; [congruence|reflexivity]. Qed.
+(* element size 0: an error on every entry point (repaired: the writer used to divide by zero) *)
+Lemma shuffle_esz0_err x : x <> [] -> shuffle_apply 0%N x = Err /\ shuffle_remove 0%N x = Err /\ reader_unshuffle [0%N] x = Err.
+Proof. destruct x; [congruence|]. repeat split; reflexivity. Qed.
